@@ -13,3 +13,8 @@ CHECKS["C03"] = (
  "srpc_getdata's switch is translated on every run into a Lean table (one row per case: exact sizes or VALID_SIZE parameters, allocation size); generic theorems show an accepted packet has exactly the required length and is copied inside its allocation, and `decide` checks every row and every dispatched call id of the current table. The real srpc_getdata verdict is compared with the table's for generated messages; the real handlers run under ASan/UBSan with a monitor that rejects any effect of a rejected message and any change to a slot not owned by the named channel.",
  "trusted: Lean kernel, the regex translator over gcc -E output (fails closed on unknown shapes for dispatched ids), sizeof/offsetof probe, harness SDK. The handlers' index guards are NOT modelled in Lean: they are checked on the implementation only (partial: proof for size validation, exploration for handler side effects).",
  "DESIGN.md 4/C03")
+CHECKS["C20"] = (
+ "Lean 4 theorems (read-index bound for every reply, decision iff, request state-machine invariants) + differential correspondence under ASan",
+ "Byte-level model of supla_esp_dns_recv_cb that also returns every index it touches: theorem that all of them are inside the buffer for every reply and request length; the accept decision is characterised exactly (length prefix, RCODE, ANCOUNT, name skip, TYPE/CLASS/RDLENGTH, the 4 address bytes); the request machine is proved to call back at most once per request, never to hang (a pending request always has a timer armed), to bound the tries by the server count and to fail unsendable requests at once. Tie: constants/offsets from a probe, model vs real code on the same op sequences with replies in exact-size heap buffers under ASan, independent python reference for the reported address.",
+ "trusted: Lean kernel, probes, harness SDK (callbacks delivered only for a requested connection; timers fire when the ops file says); the SDK's own timer durations (5 s / 200 ms) enter only through 'armed timers eventually fire'",
+ "DESIGN.md 4/C20")
